@@ -17,3 +17,7 @@ def run(tier, rep):
         "whole block including guard cells on both sides of every region is compared",
         "the TLA+ reading of ISO C 7.4/7.24/7.29.4/7.22.6 is calibrated against glibc on the same vectors (zero "
         "deviations required)"]
+
+
+def replay(path):
+    return clib.replay(path, "C18")
